@@ -9,7 +9,9 @@ COQ_TARGETS = ["Properties/C03.vo"]
 RULE = ("histories as in C01 run on an allocation of exactly initial-length + 10240 bytes placed flush against a PROT_NONE page "
         "(after it: overruns; before it: underruns; chosen per case) with canary-filled slack on the other side, each case in a "
         "forked child; initial sizes include 0 and values that bring the value to allowance-1 / allowance / allowance+1. "
-        "Observed: SIGSEGV yes/no, canaries intact, plus the usual per-step state. non-trivial = at least one successful resize")
+        "Observed: SIGSEGV yes/no, canaries intact, plus the usual per-step state; plus all 40 accessor-swap scenarios on two "
+        "buffers (which pointer x before/after a resize x what happens next: must be reported by the end of the borrow). "
+        "non-trivial = at least one successful resize")
 
 
 def gen_cases(rng, tier):
@@ -31,11 +33,54 @@ def gen_cases(rng, tier):
             for d in (-1, 0, 1):
                 for flush in (0, 1):
                     cases.append(("rem%d_%d" % (d, flush), O.encode_case(idx, desc, flush, -1, ("B", []), [[20, U.MAX_INC + d], [21, 0, 1], [20, 3], [20, U.MAX_INC + d]])))
+    # accessors swapped between two buffers: every (scenario, before/after a resize, follow-up) combination
+    for sc in range(5):
+        for when in (0, 1):
+            for then in (0, 1, 2, 3):
+                cases.append(("swap%d_%d_%d" % (sc, when, then), [100, sc, when, then]))
     return cases
 
 
+def _is_swap(c):
+    return c[:1] == [100]
+
+
 def predicate(c, obs):
+    if _is_swap(c):
+        if obs is None or obs[:1] == [-11]:
+            return "crash while using swapped accessors"
+        if obs[:1] != [1]:
+            return ("accessors of two buffers were swapped (scenario %d, %s a resize, then op %d) and the framework did not "
+                    "report it by the end of the exclusive borrow" % (c[1], "after" if c[2] else "before", c[3]))
+        return None
     return O.judge(c, obs, {"safety"})
+
+
+def describe(c):
+    if _is_swap(c):
+        return {"swap_scenario": {0: "ListPtr a", 1: "UnsizedListPtr b", 2: "ListPtr d", 3: "element pointer of b (index_mut)",
+                                  4: "UnsizedListPtr c"}.get(c[1]), "swap_after_resize": bool(c[2]),
+                "then": {0: "drop", 1: "resize sibling d", 2: "access element of b", 3: "resize the swapped container"}.get(c[3])}
+    return B.describe(c)
+
+
+def nontrivial(c, obs):
+    if _is_swap(c):
+        return True
+    return B.nontrivial(c, obs)
+
+
+def shrink(c):
+    if _is_swap(c):
+        return []
+    return B.shrink(c)
+
+
+def distribution(cases, impl):
+    normal = [(i, c) for i, c in cases if not _is_swap(c)]
+    d = B.distribution(normal, impl)
+    d["swap_scenarios"] = len(cases) - len(normal)
+    return d
 
 
 def matches_known(entry, c, obs):
